@@ -50,6 +50,11 @@ def gen_replacement(rng, els, P, mode=None):
                         rpos.append(list(x))
                         rel.append(rng.choice(geom.ELEMENT_POOL[:8]))
                         break
+    if rel and mode not in ("identity",) and rng.random() < 0.25:
+        # shared atoms are 'the same coordinates' up to round-off: perturb them far below the 1e-5 identity tolerance, and
+        # turn exact zeros into negative zeros (what reading "-0.000" from a file gives)
+        for j in range(len(rpos)):
+            rpos[j] = [(-0.0 if (x == 0.0 and rng.random() < 0.5) else x + rng.uniform(-1e-12, 1e-12)) for x in rpos[j]]
     order = list(range(len(rel)))
     rng.shuffle(order)
     rel = [rel[i] for i in order]
